@@ -303,7 +303,33 @@ def r05_5(chk):
     chk.floor("R05.5", 3, "Eigen, Taylor, Pade exponentiators")
 
 
+def r05_6(chk):
+    chk.rule("R05.6", "GeneralStationary keeps pi stationary by construction: each last-in-column rate is SOLVED from the balance equation (row_total - col_total) / pi_i and used as solved -- it may be replaced by its absolute value only when it is numerically zero (allclose), and a negative solution means the free rates admit no stationary process at this pi, which is refused with ParameterOutOfBoundsError; clamping it (max(..., 0), clip, unconditional abs) returns a Q for which pi Q != 0 while the model still declares itself stationary")
+    m = chk.repo.module("evolve/ns_substitution_model.py")
+    fn = m.func("GeneralStationary.calc_exchangeability_matrix")
+    stores = [st for st in walk_no_nested(fn) if isinstance(st, ast.Assign) and isinstance(st.targets[0], ast.Subscript) and isinstance(st.value, ast.BinOp) and isinstance(st.value.op, ast.Div) and isinstance(st.value.left, ast.Name)]
+    if not stores:
+        raise AnalysisError("GeneralStationary.calc_exchangeability_matrix: the solved-rate store `R[i, j] = required / mprobs[i]` was not found")
+    x = stores[0].value.left.id
+    defs = [st for st in walk_no_nested(fn) if isinstance(st, ast.Assign) and any(isinstance(t, ast.Name) and t.id == x for t in st.targets)]
+    solved = [d for d in defs if isinstance(d.value, ast.BinOp) and isinstance(d.value.op, ast.Sub)]
+    bad = []
+    for d in defs:
+        if d in solved:
+            continue
+        v = d.value
+        okv = isinstance(v, ast.IfExp) and "allclose" in norm(v.test) and norm(v.orelse) == x and norm(v.body) in (f"abs({x})", "0.0", "0")
+        if not okv:
+            bad.append(d)
+    k1 = key(m, "GeneralStationary.calc_exchangeability_matrix", "solved rate used as solved")
+    chk.decide(bool(solved) and not bad, "R05.6", k1, m.loc(bad[0] if bad else stores[0]), f"`{x}` = row_total - col_total, |.| only when allclose to zero", f"`{norm(bad[0]) if bad else x}` alters the solution of the balance equation: a negative value is silently replaced, the returned matrix has zero row sums and passes calibration but pi is not its stationary distribution")
+    raises = [i for i in walk_no_nested(fn) if isinstance(i, ast.If) and any(isinstance(r, ast.Raise) and "ParameterOutOfBoundsError" in norm(r) for r in i.body) and x in {n.id for n in ast.walk(i.test) if isinstance(n, ast.Name)} and any(isinstance(o, ast.Lt) for c in ast.walk(i.test) if isinstance(c, ast.Compare) for o in c.ops)]
+    chk.decide(bool(raises), "R05.6", key(m, "GeneralStationary.calc_exchangeability_matrix", "infeasible point refused"), m.loc(raises[0] if raises else fn), f"`if {x} < 0: raise ParameterOutOfBoundsError`", "a negative solved rate is no longer refused with ParameterOutOfBoundsError: the optimiser is handed a non-stationary process as if it were in bounds")
+    chk.floor("R05.6", 2, "solution used as solved; infeasible point refused")
+
+
 def run(chk):
+    r05_6(chk)
     r05_5(chk)
     r05_1(chk)
     r05_2(chk)
